@@ -9,6 +9,8 @@ def run(c):
         "whose comparison exceeds the depth limit and that differ structurally are assumed to hash differently (32-bit hash)",
         "host objects are (module, name, args) triples pickled by a stateless Pickler and rebuilt by the Unpickler; they hash by identity",
         "tuple identity is not observable (DESIGN.md §4): every tuple occurrence is its own object in the canonical graph",
+        "one Encoder is read back by one Decoder that has seen the same prefix of the stream: both keep their memo across calls (the "
+        "contract read off the code: no Encode / Decode call resets it)",
         "big.Int.MarshalText/UnmarshalText are modelled on canonical decimal text only (compared per input in streams enc/dec)",
     ]
     c.coverage["rule"] = (
@@ -40,6 +42,24 @@ def run(c):
             "go_error_no_pickler": sum(1 for _, g in enc if g == "err"),
             "by_class": {k[6:]: v for k, v in stats.items() if k.startswith("class.") and not k.startswith("class.cycle-")},
             "cycle_family_graphs": sum(v for k, v in stats.items() if k.startswith("class.cycle-"))}
+        c.count("stream.judge", stats.get("stream.cases", 0),
+                sample={"judge": "2..n values (the elements of every generated tuple; seeded random streams of 2-4 values drawn from one pool "
+                                 "of shareable containers) written by ONE Encoder into one buffer and read back by ONE Decoder: the canonical "
+                                 "dump of the values read, with sharing across values, equals that of the values written (also compared "
+                                 "with the model: streams encs / decs, theorem C07_roundtrip_stream)", "streams": stats.get("stream.cases", 0)},
+                hist={k: v for k, v in stats.items() if k.startswith("stream.")})
+        c.count("wfault.judge", stats.get("wfault.cases", 0),
+                sample={"judge": "implementation only (the model has no writer errors): a writer that fails exactly its k-th Write "
+                                 "(returning 0 or a short count) and accepts the others, for every k of every encoding with at most "
+                                 "40 (thorough 400) writes: Encode returns an error, or what reached the writer decodes to the value",
+                        "cases": stats.get("wfault.cases", 0)},
+                hist={k: v for k, v in stats.items() if k.startswith("wfault.")})
+        c.count("stateful.judge", stats.get("stateful.cases", 0),
+                sample={"judge": "implementation only (the model's pickler is stateless): a stateful host Pickler that answers "
+                                 "(\"rec\", name, ()) for a value it is asked about a second time, on values where a host object reaches "
+                                 "itself through a list / tuple / dict in its arguments and is followed by a list and a dict memoised "
+                                 "afterwards and referenced again: the decoded value has exactly the expected structure and sharing",
+                        "cases": stats.get("stateful.cases", 0)})
         c.count("rt.judge", stats.get("rt.judged", 0),
                 sample={"judge": "canonical dump of Decode(Encode(v)) == canonical dump of v (types, contents, order, aliasing of "
                                  "containers and host objects)", "evaluations": stats.get("rt.judged", 0)},
